@@ -244,6 +244,16 @@ var props = map[string]propDef{
 		Thorough:       budget{Runs: 5000, Chunk: 40, Wall: 40 * time.Minute, PerChunkGrace: 5 * time.Minute},
 		MinimiseBudget: 90 * time.Second,
 	},
+	"C45": {
+		Binary: "dsim-sql", Harness: "C45", Level: "exploration",
+		Rule: "one mode per run. cluster (half of the runs): the real cluster commit hook (replicate loop, 1 s retry back-off, ticker, heartbeat, wait functions, circuit breaker) is installed on the primary's database of a production SQL engine; its destination is a standby store (file-manifest or journaling, drawn) served by the real remotesrv gRPC service + HTTP file handler behind the simulated network; every exchange passes a gate the run controls. 15-50 seeded steps (up to 110 thorough): writes on the primary (working-set DML, dolt_commit, dolt_branch), 'let n exchanges through', open/close the gate, partition/heal, lose or duplicate one exchange in 2-6, restart the standby server, let 5 ms - 6 s of simulated time pass, switch @@dolt_cluster_ack_writes_timeout_secs to 2 s and back. At every quiescent point the standby's store (re-opened from its directory) must show a root the primary has had, never an older one than before, closed under references; a write that returned without a replication warning while acknowledgement was on must be on the standby at that moment; after the last step faults stop and the hook must report caught-up at the primary's root - and the standby's store must be there - within 40 simulated seconds. replicate (two in five): database test has @@dolt_replicate_to_remote (synchronous) to a file or HTTP remote, database replica is a read replica of it (all heads); commits, branches, merges, branch deletions, resets on the primary and fresh transactions on the replica, with remote disk faults, network faults and remote restarts: after a head-moving statement that returned without error and without anything reported (CLI output / log warnings) the remote has the head; every head the replica shows is one the remote has had; without faults a new replica transaction shows exactly the remote's heads; stores closed under references. standby (one in ten): the provider's standby flag is toggled; 16 kinds of write through fresh sessions must leave dolt_hashof_db, branches and tags unchanged while it is a standby, reads must work. One evaluation = one quiescent-point check, one judged head-moving statement, one replica read or one standby write.",
+		Assumptions: []string{"not covered: the graceful role transition protocol of cluster.Controller (its control-plane gRPC service, JWT interceptors and process-global system variables do not fit two controllers into one address space); the clause about writes acknowledged before a graceful transition is decided only as far as the hook's ack/catch-up logic the transition waits on", "the hook's goroutines run freely between gate passages; the run waits for quiescence (synctest.Wait) after every step", "asynchronous push-on-write (@@dolt_async_replication) is not exercised", "users/grants and branch-control replication are not covered"},
+		Real:        append([]string{"sqle/cluster commithook (newCommitHook, run/replicate/tick, Execute, wait functions, NotifyWaitFailed)", "doltdb hooksDatabase.ExecuteCommitHooks, dsess.WaitForReplicationController", "sqle push-on-write hook (DynamicPushOnWriteHook / PushOnWriteHook), ReadReplicaDatabase.PullFromRemote", "DoltDatabaseProvider standby flag", "remotesrv RemoteChunkStore + file handler, remotestorage client"}, sqlReal...), Stub: append([]string{"gRPC transport, HTTP/2, TLS, sockets (simulated network; protobuf codec kept)", "cluster.Controller (role transitions, control-plane service) absent"}, sqlStub...), Persistence: "not used (clean restarts of the standby server only)",
+		ExpectProbes:   []string{"mode:cluster", "mode:replicate", "mode:standby", "primary_writes", "standby_root_moves", "acknowledged_writes", "ack_timed_out", "pushed_on_write", "push_on_write_failed_and_reported", "replica_caught_up", "standby_write_refused", "primary_write_ok", "partition", "standby-restart", "clock-advance"},
+		Quick:          budget{Runs: 120, Chunk: 8, Wall: 150 * time.Second, PerChunkGrace: 120 * time.Second},
+		Thorough:       budget{Runs: 5000, Chunk: 40, Wall: 40 * time.Minute, PerChunkGrace: 5 * time.Minute},
+		MinimiseBudget: 90 * time.Second,
+	},
 	"C27": {
 		Binary: "dsim-sql", Harness: "C27", Level: "exploration",
 		Rule: "each run = 2-3 sessions (autocommit drawn per session) on main plus one session on branch b1 of a fresh on-disk repository behind the production SQL engine; one keyless table kl(a, b) with a secondary index; 20-70 seeded statements: multi-row INSERT of duplicate rows, DELETE ... LIMIT n, UPDATE ... LIMIT n, COMMIT / ROLLBACK, edits on b1, CALL dolt_merge('b1'), clean restarts. The reference model is a multiset per session (snapshot + own writes) and per branch; transaction commits and branch merges combine multiplicity changes row by row (both sides changed the multiplicity of one row differently => must be reported as a conflict). Every GROUP BY over all columns, COUNT(*) and index lookup must equal the multiset. One evaluation = one checked read.",
